@@ -111,13 +111,21 @@ func getSharedDynsamplerAndRecorder[ST dynsampler.Sampler, CT any](
 	return dynsamplerInstance, r
 }
 
-// makeDynsamplerKey builds a dynsampler map key with a sorted copy of fieldList so that
-// configs with the same fields in different order always map to the same instance.
-func makeDynsamplerKey(prefix, samplerType string, rate int64, fieldList []string) string {
+// makeDynsamplerKey builds a dynsampler map key from where the definition lives (top-level
+// sampler of a dataset/environment, or downstream sampler of a rules-based sampler) and from the
+// whole sampler configuration, so that two definitions share an instance only when every
+// parameter is the same. cfg is the configuration with FieldList cleared; the field list is
+// rendered from a sorted copy so that the same fields in a different order map to the same
+// instance. Prefix and fields are quoted, which keeps the parts of the key apart.
+func makeDynsamplerKey(downstream bool, prefix, samplerType string, cfg any, fieldList []string) string {
 	sorted := make([]string, len(fieldList))
 	copy(sorted, fieldList)
 	slices.Sort(sorted)
-	return fmt.Sprintf("%s:%s:%d:%v", prefix, samplerType, rate, sorted)
+	scope := "top"
+	if downstream {
+		scope = "rules"
+	}
+	return fmt.Sprintf("%s:%q:%s:%+v:%q", scope, prefix, samplerType, cfg, sorted)
 }
 
 // createSampler creates a sampler with shared dynsamplers based on the config type.
@@ -127,23 +135,34 @@ func makeDynsamplerKey(prefix, samplerType string, rate int64, fieldList []strin
 // same underlying dynsampler instance, guaranteeing consistent sampling decisions across
 // parallel collector workers within a single Refinery instance.
 func (s *SamplerFactory) createSampler(c any, keyPrefix string) Sampler {
+	return s.createSamplerIn(c, keyPrefix, false)
+}
+
+// createSamplerIn is createSampler for a top-level (downstream == false) or a downstream sampler.
+func (s *SamplerFactory) createSamplerIn(c any, keyPrefix string, downstream bool) Sampler {
 	var sampler Sampler
 
 	switch c := c.(type) {
 	case *config.DeterministicSamplerConfig:
 		sampler = &DeterministicSampler{Config: c, Logger: s.Logger, Metrics: s.Metrics}
 	case *config.DynamicSamplerConfig:
-		dynsamplerKey := makeDynsamplerKey(keyPrefix, "dynamic", c.SampleRate, c.FieldList)
+		keyCfg := *c
+		keyCfg.FieldList = nil
+		dynsamplerKey := makeDynsamplerKey(downstream, keyPrefix, "dynamic", keyCfg, c.FieldList)
 		dynsamplerInstance, recorder := getSharedDynsamplerAndRecorder(s, dynsamplerKey, "dynamic", c, createDynForDynamicSampler)
 		sampler = &DynamicSampler{Config: c, Logger: s.Logger, Metrics: s.Metrics, dynsampler: dynsamplerInstance, metricsRecorder: recorder}
 	case *config.EMADynamicSamplerConfig:
-		dynsamplerKey := makeDynsamplerKey(keyPrefix, "emadynamic", int64(c.GoalSampleRate), c.FieldList)
+		keyCfg := *c
+		keyCfg.FieldList = nil
+		dynsamplerKey := makeDynsamplerKey(downstream, keyPrefix, "emadynamic", keyCfg, c.FieldList)
 		dynsamplerInstance, recorder := getSharedDynsamplerAndRecorder(s, dynsamplerKey, "emadynamic", c, createDynForEMADynamicSampler)
 		sampler = &EMADynamicSampler{Config: c, Logger: s.Logger, Metrics: s.Metrics, dynsampler: dynsamplerInstance, metricsRecorder: recorder}
 	case *config.RulesBasedSamplerConfig:
 		sampler = &RulesBasedSampler{Config: c, Logger: s.Logger, Metrics: s.Metrics, SamplerFactory: s, samplerPrefix: keyPrefix}
 	case *config.TotalThroughputSamplerConfig:
-		dynsamplerKey := makeDynsamplerKey(keyPrefix, "totalthroughput", int64(c.GoalThroughputPerSec), c.FieldList)
+		keyCfg := *c
+		keyCfg.FieldList = nil
+		dynsamplerKey := makeDynsamplerKey(downstream, keyPrefix, "totalthroughput", keyCfg, c.FieldList)
 		dynsamplerInstance, recorder := getSharedDynsamplerAndRecorder(s, dynsamplerKey, "totalthroughput", c, createDynForTotalThroughputSampler)
 		// only track goal throughput config if we need to recalculate it later based on cluster size
 		if c.UseClusterSize {
@@ -153,7 +172,9 @@ func (s *SamplerFactory) createSampler(c any, keyPrefix string) Sampler {
 		}
 		sampler = &TotalThroughputSampler{Config: c, Logger: s.Logger, Metrics: s.Metrics, dynsampler: dynsamplerInstance, metricsRecorder: recorder}
 	case *config.EMAThroughputSamplerConfig:
-		dynsamplerKey := makeDynsamplerKey(keyPrefix, "emathroughput", int64(c.GoalThroughputPerSec), c.FieldList)
+		keyCfg := *c
+		keyCfg.FieldList = nil
+		dynsamplerKey := makeDynsamplerKey(downstream, keyPrefix, "emathroughput", keyCfg, c.FieldList)
 		dynsamplerInstance, recorder := getSharedDynsamplerAndRecorder(s, dynsamplerKey, "emathroughput", c, createDynForEMAThroughputSampler)
 		// only track goal throughput config if we need to recalculate it later based on cluster size
 		if c.UseClusterSize {
@@ -163,7 +184,9 @@ func (s *SamplerFactory) createSampler(c any, keyPrefix string) Sampler {
 		}
 		sampler = &EMAThroughputSampler{Config: c, Logger: s.Logger, Metrics: s.Metrics, dynsampler: dynsamplerInstance, metricsRecorder: recorder}
 	case *config.WindowedThroughputSamplerConfig:
-		dynsamplerKey := makeDynsamplerKey(keyPrefix, "windowedthroughput", int64(c.GoalThroughputPerSec), c.FieldList)
+		keyCfg := *c
+		keyCfg.FieldList = nil
+		dynsamplerKey := makeDynsamplerKey(downstream, keyPrefix, "windowedthroughput", keyCfg, c.FieldList)
 		dynsamplerInstance, recorder := getSharedDynsamplerAndRecorder(s, dynsamplerKey, "windowedthroughput", c, createDynForWindowedThroughputSampler)
 		// only track goal throughput config if we need to recalculate it later based on cluster size
 		if c.UseClusterSize {
@@ -228,7 +251,7 @@ func (s *SamplerFactory) GetDownstreamSampler(
 		os.Exit(1)
 	}
 
-	return s.createSampler(actualConfig, keyPrefix)
+	return s.createSamplerIn(actualConfig, keyPrefix, true)
 }
 
 // When the config changes, all our shared dynsamplers are invalid. This stops and clears
